@@ -68,7 +68,7 @@ theorem magic_distinct :
 classes have six different type numbers (`Kind.ofNum` inverts `typeNum`), each below `numModelNames`. -/
 theorem recognize_type (k : Kind) (order mult : Nat) (hv : Bool) (counts : List Nat) (rest : List Nat)
     (ho : order < 256) (hm : mult < 2^32) (hl : counts.length = order) (hc : ∀ c ∈ counts, c < 2^64)
-    (h1 : floatLtOne mult = false) :
+    (h1 : floatNotGeOne mult = false) :
     ∃ p, recognize (headerBytes { fixed := { order := order, multBits := mult, modelType := k.typeNum, hasVocab := hv,
                                               searchVersion := k.searchVersion }, counts := counts } ++ rest) = .binary p
       ∧ Kind.ofNum p.fixed.modelType = some k ∧ p.fixed.modelType < numModelNames
@@ -314,7 +314,7 @@ theorem no_uint8_wrap (array : Bool) (quantBits maxOffset maxVocab maxNext bhiks
 the loader recognises the writer's model class and computes exactly the writer's offsets for the vocabulary lookup, the
 search structure and the vocabulary strings. -/
 theorem file_roundtrip_layout (k : Kind) (cfg : Config) (arpa fixed : List Nat) (sawUnk iv : Bool) (sl : Nat) (rest : List Nat)
-    (hlen : fixed.length = arpa.length) (ho : arpa.length < 256) (hm : cfg.multBits < 2^32) (h1 : floatLtOne cfg.multBits = false)
+    (hlen : fixed.length = arpa.length) (ho : arpa.length < 256) (hm : cfg.multBits < 2^32) (h1 : floatNotGeOne cfg.multBits = false)
     (hc : ∀ c ∈ storedCounts k arpa fixed, c < 2^64)
     (h0 : k.isTrie = true → cnt fixed 0 = cnt arpa 0 + (if sawUnk then 0 else 1)) :
     let w := writeLayout k cfg arpa fixed sawUnk iv sl
